@@ -25,11 +25,31 @@ func symView(maxb int) *memFS {
 		fs.entries = append(fs.entries, e)
 	}
 	add("d", clsDir)
+	firstFile := ""
 	for _, p := range []string{"d/f", "e", "g"} {
 		if p == "g" && !v.Bool("has-g") {
 			continue
 		}
-		add(p, 1+v.Choose("class", clsCount-1))
+		// class clsCount: a hard link to the first regular file announced so far (a regular
+		// entry whose stat names that file; its bytes are the bytes of the group)
+		c := 1 + v.Choose("class", clsCount)
+		if c == clsCount {
+			v.Assume(firstFile != "")
+			var src *memEntry
+			for _, e := range fs.entries {
+				if e.stat.Path == firstFile {
+					src = e
+				}
+			}
+			e := &memEntry{stat: &types.Stat{Path: p, Mode: src.stat.Mode, Linkname: firstFile}, data: src.data}
+			fs.entries = append(fs.entries, e)
+			v.Cover("hardlink-entry")
+			continue
+		}
+		add(p, c)
+		if c == clsFile && firstFile == "" {
+			firstFile = p
+		}
 	}
 	return fs
 }
@@ -77,7 +97,7 @@ func VH_C06_sender() {
 	v.Assert(len(stats) == len(view.entries), "one STAT per entry of the view")
 	for i, st := range stats {
 		if i < len(view.entries) {
-			v.Assert(st.Path == view.entries[i].stat.Path && st.Mode == view.entries[i].stat.Mode, "STAT i describes the i-th entry of the view")
+			v.Assert(st.Path == view.entries[i].stat.Path && st.Mode == view.entries[i].stat.Mode && st.Linkname == view.entries[i].stat.Linkname, "STAT i describes the i-th entry of the view")
 		}
 		if i > 0 {
 			v.Assert(specCmp(stats[i-1].Path, st.Path) < 0, "STATs strictly ascending in protocol order")
